@@ -103,9 +103,9 @@ def valid_pulse(p):
 
 
 def mod2pi(x, r):
-    """r == x mod 2*PI  (A-REAL): r in [0, 2PI) and x - r is an integer multiple of 2PI."""
-    k = uf("MOD2PI_K", R, I)(x)
-    return z3.And(r >= 0, r < 2 * PI, x == r + 2 * PI * z3.ToReal(k))
+    """r == x mod 2*PI, in the witnessed form shared with _PhaseTracker._format"""
+    from .lib import fmt
+    return z3.And(r == fmt(x), r >= 0, r < 2 * PI)
 
 
 contract(PF, "Pulse.__init__", props=("C01", "C07", "C16"), trusted=True,
